@@ -40,9 +40,25 @@ def alook {β : Type} : List (Nat × β) → Nat → Option β
   | [], _ => none
   | (k', v) :: r, k => if k' = k then some v else alook r k
 
-/-- point update of a bucket -/
-def upd {κ β : Type} [DecidableEq κ] (m : κ → β) (k : κ) (v : β) : κ → β :=
-  fun x => if x = k then v else m x
+/-- A key/value bucket: finite map as association list (first match wins; `bset` keeps keys
+unique). Data, not closures, so that the compiled driver does no repeated work. -/
+abbrev Bucket (κ β : Type) := List (κ × β)
+
+def bget {κ β : Type} [DecidableEq κ] : Bucket κ β → κ → Option β
+  | [], _ => none
+  | (k', v) :: r, k => if k' = k then some v else bget r k
+
+/-- `Put` (`some`) / `Delete` (`none`) -/
+def bset {κ β : Type} [DecidableEq κ] (m : Bucket κ β) (k : κ) (v : Option β) : Bucket κ β :=
+  match v with
+  | some x => (k, x) :: m.filter (fun p => !decide (p.1 = k))
+  | none => m.filter (fun p => !decide (p.1 = k))
+
+/-- buckets whose absent entries read as the empty list (tries without leaves, history prefixes
+without entries) -/
+def lget {κ β : Type} [DecidableEq κ] (m : Bucket κ (List β)) (k : κ) : List β := (bget m k).getD []
+def lset {κ β : Type} [DecidableEq κ] (m : Bucket κ (List β)) (k : κ) (v : List β) : Bucket κ (List β) :=
+  bset m k (some v)
 
 /-! ## State diffs -/
 
@@ -219,10 +235,14 @@ structure Cfg where
   (as found: the remaining, empty, path — the leaf node stays on disk when it is deleted while its
   sibling leaf `k xor 1` exists). -/
   leafFix : Bool
+  /-- core/state `stateHistory.checkDeployed` does not probe the deployment height of the system
+  contracts 0x1/0x2 (as found: it does, and `commit` deletes their record — with the height —
+  whenever their storage becomes empty, also during `Update`). -/
+  sysProbeFix : Bool
   deriving DecidableEq, Repr
 
-def Cfg.asFound : Cfg := ⟨false⟩
-def Cfg.repaired : Cfg := ⟨true⟩
+def Cfg.asFound : Cfg := ⟨false, false⟩
+def Cfg.repaired : Cfg := ⟨true, true⟩
 
 inductive Err
   | alreadyDeployed | notFound | notDeployed | classMissing | checkHeadState
@@ -240,16 +260,16 @@ structure Contract where
 
 structure NState where
   /-- bucket `Contract` -/
-  contracts : Addr → Option Contract
+  contracts : Bucket Addr Contract
   /-- logical content of each contract's storage trie -/
-  trie : Addr → Leaves
+  trie : Bucket Addr Leaves
   /-- leaf nodes of bucket `ContractTrieStorage` on disk: what the head reader fetches by path -/
-  leaves : Addr → Leaves
+  leaves : Bucket Addr Leaves
   /-- bucket `Class`: `DeclaredClassDefinition.At` -/
-  classes : CHash → Option Nat
-  hist : HKey → Hist
+  classes : Bucket CHash Nat
+  hist : Bucket HKey Hist
 
-def NState.empty : NState := ⟨fun _ => none, fun _ => [], fun _ => [], fun _ => none, fun _ => []⟩
+def NState.empty : NState := ⟨[], [], [], [], []⟩
 
 /-- the other leaf under the same last-level binary node -/
 def sib (k : Slot) : Slot := if k % 2 = 0 then k + 1 else k - 1
@@ -270,139 +290,167 @@ def applySlots (cfg : Cfg) (t lv : Leaves) (slots : List (Slot × Val)) : Leaves
     (t, lv)
 
 /-- classes of `newClasses` not yet on disk get `At = b` -/
-def declareFold (classes : CHash → Option Nat) (b : Nat) (cs : List CHash) : CHash → Option Nat :=
-  cs.foldl (fun m c => match m c with | some _ => m | none => upd m c (some b)) classes
+def declareStep (b : Nat) (m : Bucket CHash Nat) (c : CHash) : Bucket CHash Nat :=
+  match bget m c with
+  | some _ => m
+  | none => bset m c (some b)
 
-def NState.deploy (s : NState) (b : Nat) (l : List (Addr × CHash)) : NState :=
-  l.foldl (fun s p => { s with contracts := upd s.contracts p.1 (some ⟨0, p.2, b⟩) }) s
+def declareFold (classes : Bucket CHash Nat) (b : Nat) (cs : List CHash) : Bucket CHash Nat :=
+  cs.foldl (declareStep b) classes
 
-def NState.setClass (s : NState) (l : List (Addr × CHash)) : NState :=
-  l.foldl (fun s p =>
-    match s.contracts p.1 with
-    | some c => { s with contracts := upd s.contracts p.1 (some { c with classHash := p.2 }) }
-    | none => s) s
+/-- register deployed contracts: `newContractDeployed(classHash, b)` -/
+def deployC (c : Bucket Addr Contract) (b : Nat) (l : List (Addr × CHash)) : Bucket Addr Contract :=
+  l.foldl (fun c p => bset c p.1 (some ⟨0, p.2, b⟩)) c
 
-def NState.setNonce (s : NState) (l : List (Addr × Val)) : NState :=
-  l.foldl (fun s p =>
-    match s.contracts p.1 with
-    | some c => { s with contracts := upd s.contracts p.1 (some { c with nonce := p.2 }) }
-    | none => s) s
+/-- `updateContractClasses` -/
+def setClassStep (c : Bucket Addr Contract) (p : Addr × CHash) : Bucket Addr Contract :=
+  match bget c p.1 with
+  | some x => bset c p.1 (some { x with classHash := p.2 })
+  | none => c
 
-/-- `updateContractStorage` + the storage part of `commit`: a system contract without record gets
-one (class hash 0, deployed at `b`) -/
-def NState.writeStorage (cfg : Cfg) (s : NState) (b : Nat) (l : List (Addr × List (Slot × Val))) : NState :=
-  l.foldl (fun s p =>
-    let contracts :=
-      match s.contracts p.1 with
-      | some _ => s.contracts
-      | none => if isSystem p.1 then upd s.contracts p.1 (some ⟨0, 0, b⟩) else s.contracts
-    let r := applySlots cfg (s.trie p.1) (s.leaves p.1) p.2
-    { s with contracts := contracts, trie := upd s.trie p.1 r.1, leaves := upd s.leaves p.1 r.2 }) s
+def setClassC (c : Bucket Addr Contract) (l : List (Addr × CHash)) : Bucket Addr Contract :=
+  l.foldl setClassStep c
+
+/-- `updateContractNonces` -/
+def setNonceStep (c : Bucket Addr Contract) (p : Addr × Val) : Bucket Addr Contract :=
+  match bget c p.1 with
+  | some x => bset c p.1 (some { x with nonce := p.2 })
+  | none => c
+
+def setNonceC (c : Bucket Addr Contract) (l : List (Addr × Val)) : Bucket Addr Contract :=
+  l.foldl setNonceStep c
+
+/-- `updateContractStorage`: a system contract without record gets one (class hash 0, deployed
+at `b`) -/
+def sysCreateStep (b : Nat) (c : Bucket Addr Contract) (a : Addr) : Bucket Addr Contract :=
+  match bget c a with
+  | some _ => c
+  | none => if isSystem a then bset c a (some ⟨0, 0, b⟩) else c
+
+def sysCreateC (c : Bucket Addr Contract) (b : Nat) (addrs : List Addr) : Bucket Addr Contract :=
+  addrs.foldl (sysCreateStep b) c
+
+/-- the storage part of `commit`: every state object's dirty storage goes into its trie; result =
+(tries, leaf nodes on disk) -/
+def writeSlots (cfg : Cfg) (tl : Bucket Addr Leaves × Bucket Addr Leaves) (l : List (Addr × List (Slot × Val))) :
+    Bucket Addr Leaves × Bucket Addr Leaves :=
+  l.foldl (fun tl p =>
+    let r := applySlots cfg (lget tl.1 p.1) (lget tl.2 p.1) p.2
+    (lset tl.1 p.1 r.1, lset tl.2 p.1 r.2)) tl
 
 /-- `commit`: a system contract among the state objects whose storage root is zero is set to the
 zero leaf and marked for deletion; `flush` deletes its record and its storage nodes. This runs in
-`Update` as well as in `Revert`. -/
-def NState.purgeSystem (s : NState) (touched : List Addr) : NState :=
-  touched.foldl (fun s a =>
-    if isSystem a && (s.contracts a).isSome && (s.trie a).isEmpty then
-      { s with contracts := upd s.contracts a none, leaves := upd s.leaves a [] }
-    else s) s
+`Update` as well as in `Revert`. Result = (contract records, leaf nodes on disk). -/
+def purgeStep (trie : Bucket Addr Leaves) (cl : Bucket Addr Contract × Bucket Addr Leaves) (a : Addr) :
+    Bucket Addr Contract × Bucket Addr Leaves :=
+  if isSystem a && (bget cl.1 a).isSome && (lget trie a).isEmpty then (bset cl.1 a none, lset cl.2 a [])
+  else cl
 
-def histPutAll (h : HKey → Hist) (b : Nat) (d : Diff) : HKey → Hist :=
-  let h := d.storage.foldl (fun h p =>
-    p.2.foldl (fun h e => upd h (.storage p.1 e.1) (hput (h (.storage p.1 e.1)) b e.2)) h) h
-  let h := d.nonces.foldl (fun h p => upd h (.nonce p.1) (hput (h (.nonce p.1)) b p.2)) h
-  let h := d.replaced.foldl (fun h p => upd h (.classHash p.1) (hput (h (.classHash p.1)) b p.2)) h
-  d.deployed.foldl (fun h p => upd h (.classHash p.1) (hput (h (.classHash p.1)) b p.2)) h
+def purgeSys (trie : Bucket Addr Leaves) (cl : Bucket Addr Contract × Bucket Addr Leaves) (touched : List Addr) :
+    Bucket Addr Contract × Bucket Addr Leaves :=
+  touched.foldl (purgeStep trie) cl
+
+/-- one history `Put` -/
+def histPut (h : Bucket HKey Hist) (key : HKey) (b : Nat) (v : Val) : Bucket HKey Hist :=
+  lset h key (hput (lget h key) b v)
+
+/-- one history `Delete` -/
+def histDel (h : Bucket HKey Hist) (key : HKey) (b : Nat) : Bucket HKey Hist :=
+  lset h key (hdel (lget h key) b)
 
 /-- `writeHistory`: the value AFTER the change, at the block of the change -/
-def NState.writeHistory (s : NState) (b : Nat) (d : Diff) : NState := { s with hist := histPutAll s.hist b d }
+def histPutAll (h : Bucket HKey Hist) (b : Nat) (d : Diff) : Bucket HKey Hist :=
+  let h := d.storage.foldl (fun h p => p.2.foldl (fun h e => histPut h (.storage p.1 e.1) b e.2) h) h
+  let h := d.nonces.foldl (fun h p => histPut h (.nonce p.1) b p.2) h
+  let h := d.replaced.foldl (fun h p => histPut h (.classHash p.1) b p.2) h
+  d.deployed.foldl (fun h p => histPut h (.classHash p.1) b p.2) h
 
 /-- `State.Update` (root checks left out). Guards are evaluated where the code evaluates them:
 `HasContract` on the disk state before the block, `getStateObject` on the state objects so far. -/
 def NState.update (cfg : Cfg) (s : NState) (b : Nat) (d : Diff) : Except Err NState :=
-  let s1 := { s with classes := declareFold s.classes b d.classHashes }
-  if d.deployed.any (fun p => (s.contracts p.1).isSome) then .error .alreadyDeployed else
-  let s2 := s1.deploy b d.deployed
-  if d.replaced.any (fun p => (s2.contracts p.1).isNone) then .error .notFound else
-  let s3 := s2.setClass d.replaced
-  if d.nonces.any (fun p => (s3.contracts p.1).isNone) then .error .notFound else
-  let s4 := s3.setNonce d.nonces
-  if d.storage.any (fun p => (s4.contracts p.1).isNone && !isSystem p.1) then .error .notFound else
-  let s5 := s4.writeStorage cfg b d.storage
-  let s6 := s5.purgeSystem d.touched
-  .ok (s6.writeHistory b d)
+  if d.deployed.any (fun p => (bget s.contracts p.1).isSome) then .error .alreadyDeployed else
+  let c2 := deployC s.contracts b d.deployed
+  if d.replaced.any (fun p => (bget c2 p.1).isNone) then .error .notFound else
+  let c3 := setClassC c2 d.replaced
+  if d.nonces.any (fun p => (bget c3 p.1).isNone) then .error .notFound else
+  let c4 := setNonceC c3 d.nonces
+  if d.storage.any (fun p => (bget c4 p.1).isNone && !isSystem p.1) then .error .notFound else
+  let c5 := sysCreateC c4 b (d.storage.map (·.1))
+  let tl := writeSlots cfg (s.trie, s.leaves) d.storage
+  let cl := purgeSys tl.1 (c5, tl.2) d.touched
+  .ok { contracts := cl.1, trie := tl.1, leaves := cl.2,
+        classes := declareFold s.classes b d.classHashes,
+        hist := histPutAll s.hist b d }
 
 /-- `GetReverseStateDiff`: the values at block `b - 1` read from the history buckets (no
 deployment check on this path) -/
 def NState.reverseStorage (s : NState) (b : Nat) (d : Diff) : List (Addr × List (Slot × Val)) :=
   d.storage.map (fun p => (p.1, p.2.map (fun e =>
-    (e.1, if b = 0 then 0 else newHistorical (s.hist (.storage p.1 e.1)) (b - 1)))))
+    (e.1, if b = 0 then 0 else newHistorical (lget s.hist (.storage p.1 e.1)) (b - 1)))))
 
 def NState.reverseNonces (s : NState) (b : Nat) (d : Diff) : List (Addr × Val) :=
-  d.nonces.map (fun p => (p.1, if b = 0 then 0 else newHistorical (s.hist (.nonce p.1)) (b - 1)))
+  d.nonces.map (fun p => (p.1, if b = 0 then 0 else newHistorical (lget s.hist (.nonce p.1)) (b - 1)))
 
 def NState.reverseReplaced (s : NState) (b : Nat) (d : Diff) : List (Addr × CHash) :=
-  d.replaced.map (fun p => (p.1, if b = 0 then 0 else newHistorical (s.hist (.classHash p.1)) (b - 1)))
+  d.replaced.map (fun p => (p.1, if b = 0 then 0 else newHistorical (lget s.hist (.classHash p.1)) (b - 1)))
 
 /-- classes declared by the reverted block (and at that block) are deleted -/
-def undeclareFold (classes : CHash → Option Nat) (b : Nat) (cs : List CHash) : CHash → Option Nat :=
-  cs.foldl (fun m c => if m c = some b then upd m c none else m) classes
+def undeclareFold (classes : Bucket CHash Nat) (b : Nat) (cs : List CHash) : Bucket CHash Nat :=
+  cs.foldl (fun m c => if bget m c = some b then bset m c none else m) classes
 
 /-- `stateObjects[addr] = nil` for the block's deployed contracts; `flush`: `DeleteContract` +
-`DeleteStorageNodesByPath` -/
-def NState.deleteContracts (s : NState) (l : List (Addr × CHash)) : NState :=
-  l.foldl (fun s p => { s with contracts := upd s.contracts p.1 none, trie := upd s.trie p.1 [],
-                               leaves := upd s.leaves p.1 [] }) s
+`DeleteStorageNodesByPath`. Result = (records, tries, leaves). -/
+def deleteContracts (x : Bucket Addr Contract × Bucket Addr Leaves × Bucket Addr Leaves) (l : List (Addr × CHash)) :
+    Bucket Addr Contract × Bucket Addr Leaves × Bucket Addr Leaves :=
+  l.foldl (fun x p => (bset x.1 p.1 none, lset x.2.1 p.1 [], lset x.2.2 p.1 [])) x
 
-def histDelAll (h : HKey → Hist) (b : Nat) (d : Diff) : HKey → Hist :=
-  let h := d.storage.foldl (fun h p =>
-    p.2.foldl (fun h e => upd h (.storage p.1 e.1) (hdel (h (.storage p.1 e.1)) b)) h) h
-  let h := d.nonces.foldl (fun h p => upd h (.nonce p.1) (hdel (h (.nonce p.1)) b)) h
-  let h := d.replaced.foldl (fun h p => upd h (.classHash p.1) (hdel (h (.classHash p.1)) b)) h
-  d.deployed.foldl (fun h p =>
-    let h := upd h (.nonce p.1) (hdel (h (.nonce p.1)) b)
-    upd h (.classHash p.1) (hdel (h (.classHash p.1)) b)) h
-
-def NState.deleteHistory (s : NState) (b : Nat) (d : Diff) : NState := { s with hist := histDelAll s.hist b d }
+/-- `deleteHistory` -/
+def histDelAll (h : Bucket HKey Hist) (b : Nat) (d : Diff) : Bucket HKey Hist :=
+  let h := d.storage.foldl (fun h p => p.2.foldl (fun h e => histDel h (.storage p.1 e.1) b) h) h
+  let h := d.nonces.foldl (fun h p => histDel h (.nonce p.1) b) h
+  let h := d.replaced.foldl (fun h p => histDel h (.classHash p.1) b) h
+  d.deployed.foldl (fun h p => histDel (histDel h (.nonce p.1) b) (.classHash p.1) b) h
 
 /-- `State.Revert` of block `b` whose diff was `d` -/
 def NState.revert (cfg : Cfg) (s : NState) (b : Nat) (d : Diff) : Except Err NState :=
   let rs := s.reverseStorage b d
   let rn := s.reverseNonces b d
   let rr := s.reverseReplaced b d
-  if d.classHashes.any (fun c => (s.classes c).isNone) then .error .classMissing else
-  let s1 := { s with classes := undeclareFold s.classes b d.classHashes }
-  if rr.any (fun p => (s1.contracts p.1).isNone) then .error .notFound else
-  let s2 := s1.setClass rr
-  if rn.any (fun p => (s2.contracts p.1).isNone) then .error .notFound else
-  let s3 := s2.setNonce rn
-  if rs.any (fun p => (s3.contracts p.1).isNone && !isSystem p.1) then .error .notFound else
-  let s4 := s3.writeStorage cfg b rs
-  let s5 := s4.deleteContracts d.deployed
-  let s6 := s5.purgeSystem d.touched
-  .ok (s6.deleteHistory b d)
+  if d.classHashes.any (fun c => (bget s.classes c).isNone) then .error .classMissing else
+  if rr.any (fun p => (bget s.contracts p.1).isNone) then .error .notFound else
+  let c2 := setClassC s.contracts rr
+  if rn.any (fun p => (bget c2 p.1).isNone) then .error .notFound else
+  let c3 := setNonceC c2 rn
+  if rs.any (fun p => (bget c3 p.1).isNone && !isSystem p.1) then .error .notFound else
+  let c4 := sysCreateC c3 b (rs.map (·.1))
+  let tl := writeSlots cfg (s.trie, s.leaves) rs
+  let x := deleteContracts (c4, tl.1, tl.2) d.deployed
+  let cl := purgeSys x.2.1 (x.1, x.2.2) d.touched
+  .ok { contracts := cl.1, trie := x.2.1, leaves := cl.2,
+        classes := undeclareFold s.classes b d.classHashes,
+        hist := histDelAll s.hist b d }
 
 /-- `StateReader` at the head -/
 def NState.headRead (s : NState) : Query → Res
-  | .classHash a => match s.contracts a with | some c => .ok c.classHash | none => .notfound
-  | .nonce a => match s.contracts a with | some c => .ok c.nonce | none => .notfound
-  | .storage a k => .ok (tget (s.leaves a) k)
-  | .cls c => match s.classes c with | some n => .ok n | none => .notfound
+  | .classHash a => match bget s.contracts a with | some c => .ok c.classHash | none => .notfound
+  | .nonce a => match bget s.contracts a with | some c => .ok c.nonce | none => .notfound
+  | .storage a k => .ok (tget (lget s.leaves a) k)
+  | .cls c => match bget s.classes c with | some n => .ok n | none => .notfound
 
-/-- `ContractDeployedAt` -/
-def NState.deployedAt (s : NState) (a : Addr) (n : Nat) : Bool :=
-  match s.contracts a with
+/-- `checkDeployed` / `ContractDeployedAt` -/
+def NState.deployedAt (cfg : Cfg) (s : NState) (a : Addr) (n : Nat) : Bool :=
+  (cfg.sysProbeFix && isSystem a) ||
+  match bget s.contracts a with
   | some c => decide (c.deployedHeight ≤ n)
   | none => false
 
 /-- `stateHistory` at block `n` -/
-def NState.histRead (s : NState) (n : Nat) : Query → Res
-  | .classHash a => if s.deployedAt a n then .ok (newHistorical (s.hist (.classHash a)) n) else .notfound
-  | .nonce a => if s.deployedAt a n then .ok (newHistorical (s.hist (.nonce a)) n) else .notfound
-  | .storage a k => if s.deployedAt a n then .ok (newHistorical (s.hist (.storage a k)) n) else .notfound
+def NState.histRead (cfg : Cfg) (s : NState) (n : Nat) : Query → Res
+  | .classHash a => if s.deployedAt cfg a n then .ok (newHistorical (lget s.hist (.classHash a)) n) else .notfound
+  | .nonce a => if s.deployedAt cfg a n then .ok (newHistorical (lget s.hist (.nonce a)) n) else .notfound
+  | .storage a k => if s.deployedAt cfg a n then .ok (newHistorical (lget s.hist (.storage a k)) n) else .notfound
   | .cls c =>
-    match s.classes c with
+    match bget s.classes c with
     | some at_ => if n < at_ then .notfound else .ok at_
     | none => .notfound
 
@@ -410,132 +458,132 @@ def NState.histRead (s : NState) (n : Nat) : Query → Res
 
 structure LState where
   /-- bucket `ContractClassHash`; presence = `deployed()` -/
-  classHash : Addr → Option CHash
+  classHash : Bucket Addr CHash
   /-- bucket `ContractNonce` -/
-  nonce : Addr → Option Val
-  trie : Addr → Leaves
+  nonce : Bucket Addr Val
+  trie : Bucket Addr Leaves
   /-- bucket `ContractDeploymentHeight` -/
-  deployHeight : Addr → Option Nat
-  classes : CHash → Option Nat
+  deployHeight : Bucket Addr Nat
+  classes : Bucket CHash Nat
   /-- the Deprecated*History buckets: OLD value, at the block of the change -/
-  logs : HKey → Hist
+  logs : Bucket HKey Hist
 
-def LState.empty : LState := ⟨fun _ => none, fun _ => none, fun _ => [], fun _ => none, fun _ => none, fun _ => []⟩
+def LState.empty : LState := ⟨[], [], [], [], [], []⟩
 
-/-- `putNewContract` -/
-def LState.putNew (s : LState) (b : Nat) (a : Addr) (c : CHash) : LState :=
-  { s with classHash := upd s.classHash a (some c), nonce := upd s.nonce a (some 0),
-           deployHeight := upd s.deployHeight a (some b) }
-
+/-- `putNewContract` for each entry: class hash, nonce 0, deployment height `b` -/
 def LState.deploy (s : LState) (b : Nat) (l : List (Addr × CHash)) : LState :=
-  l.foldl (fun s p => s.putNew b p.1 p.2) s
+  { s with classHash := l.foldl (fun m p => bset m p.1 (some p.2)) s.classHash,
+           nonce := l.foldl (fun m p => bset m p.1 (some 0)) s.nonce,
+           deployHeight := l.foldl (fun m p => bset m p.1 (some b)) s.deployHeight }
 
 /-- `replaceContract` (+ log of the old class hash when `log`) -/
 def LState.replaceAll (s : LState) (log : Bool) (b : Nat) (l : List (Addr × CHash)) : LState :=
   l.foldl (fun s p =>
-    match s.classHash p.1 with
+    match bget s.classHash p.1 with
     | some old =>
-      { s with classHash := upd s.classHash p.1 (some p.2),
-               logs := if log then upd s.logs (.classHash p.1) (hput (s.logs (.classHash p.1)) b old) else s.logs }
+      { s with classHash := bset s.classHash p.1 (some p.2),
+               logs := if log then histPut s.logs (.classHash p.1) b old else s.logs }
     | none => s) s
 
 /-- `updateContractNonce` (+ log of the old nonce when `log`) -/
 def LState.nonceAll (s : LState) (log : Bool) (b : Nat) (l : List (Addr × Val)) : LState :=
   l.foldl (fun s p =>
-    match s.nonce p.1 with
+    match bget s.nonce p.1 with
     | some old =>
-      { s with nonce := upd s.nonce p.1 (some p.2),
-               logs := if log then upd s.logs (.nonce p.1) (hput (s.logs (.nonce p.1)) b old) else s.logs }
+      { s with nonce := bset s.nonce p.1 (some p.2),
+               logs := if log then histPut s.logs (.nonce p.1) b old else s.logs }
     | none => s) s
 
-/-- "make sure all system contracts are deployed" -/
+/-- "make sure all system contracts are deployed": `putNewContract(addr, 0, b)` for the system
+contracts in the storage diffs that are not deployed -/
 def LState.deploySystem (s : LState) (b : Nat) (addrs : List Addr) : LState :=
-  addrs.foldl (fun s a => if isSystem a && (s.classHash a).isNone then s.putNew b a 0 else s) s
+  s.deploy b ((addrs.filter (fun a => isSystem a && (bget s.classHash a).isNone)).map (fun a => (a, 0)))
 
 /-- `UpdateStorage` of one contract: `trie.Put` returns the old value — `nil` exactly when zero is
 written to an absent key — and `onValueChanged` logs it -/
-def legacySlots (log : Bool) (b : Nat) (a : Addr) (t : Leaves) (lg : HKey → Hist) (slots : List (Slot × Val)) :
-    Leaves × (HKey → Hist) :=
-  slots.foldl (fun (acc : Leaves × (HKey → Hist)) (e : Slot × Val) =>
+def legacySlots (log : Bool) (b : Nat) (a : Addr) (t : Leaves) (lg : Bucket HKey Hist)
+    (slots : List (Slot × Val)) : Leaves × Bucket HKey Hist :=
+  slots.foldl (fun (acc : Leaves × Bucket HKey Hist) (e : Slot × Val) =>
     let old := alook acc.1 e.1
     let logged := log && (e.2 != 0 || old.isSome)
-    (tput acc.1 e.1 e.2,
-     if logged then upd acc.2 (.storage a e.1) (hput (acc.2 (.storage a e.1)) b (old.getD 0)) else acc.2))
+    (tput acc.1 e.1 e.2, if logged then histPut acc.2 (.storage a e.1) b (old.getD 0) else acc.2))
     (t, lg)
 
 def LState.storageAll (s : LState) (log : Bool) (b : Nat) (l : List (Addr × List (Slot × Val))) : LState :=
   l.foldl (fun s p =>
-    let r := legacySlots log b p.1 (s.trie p.1) s.logs p.2
-    { s with trie := upd s.trie p.1 r.1, logs := r.2 }) s
+    let r := legacySlots log b p.1 (lget s.trie p.1) s.logs p.2
+    { s with trie := lset s.trie p.1 r.1, logs := r.2 }) s
 
 /-- `updateContracts` with its guards -/
 def LState.updateContracts (s : LState) (log : Bool) (b : Nat)
     (replaced : List (Addr × CHash)) (nonces : List (Addr × Val)) (storage : List (Addr × List (Slot × Val))) :
     Except Err LState :=
-  if replaced.any (fun p => (s.classHash p.1).isNone) then .error .notDeployed else
+  if replaced.any (fun p => (bget s.classHash p.1).isNone) then .error .notDeployed else
   let s1 := s.replaceAll log b replaced
-  if nonces.any (fun p => (s1.classHash p.1).isNone) then .error .notDeployed else
+  if nonces.any (fun p => (bget s1.classHash p.1).isNone) then .error .notDeployed else
   let s2 := s1.nonceAll log b nonces
   let s3 := s2.deploySystem b (storage.map (·.1))
-  if storage.any (fun p => (s3.classHash p.1).isNone) then .error .notDeployed else
+  if storage.any (fun p => (bget s3.classHash p.1).isNone) then .error .notDeployed else
   .ok (s3.storageAll log b storage)
 
 /-- `State.Update` -/
 def LState.update (s : LState) (b : Nat) (d : Diff) : Except Err LState :=
   let s1 := { s with classes := declareFold s.classes b d.classHashes }
-  if d.deployed.any (fun p => (s1.classHash p.1).isSome) then .error .alreadyDeployed else
+  if d.deployed.any (fun p => (bget s1.classHash p.1).isSome) then .error .alreadyDeployed else
   let s2 := s1.deploy b d.deployed
   s2.updateContracts true b d.replaced d.nonces d.storage
 
 /-- head `ContractStorage` -/
-def LState.storageHead (s : LState) (a : Addr) (k : Slot) : Val := tget (s.trie a) k
+def LState.storageHead (s : LState) (a : Addr) (k : Slot) : Val := tget (lget s.trie a) k
 
 /-- legacy `GetReverseStateDiff`: storage falls back to the head value on `ErrCheckHeadState`
 (repair 05cf200), nonce and class hash do not -/
 def LState.reverseStorage (s : LState) (b : Nat) (d : Diff) : List (Addr × List (Slot × Val)) :=
   d.storage.map (fun p => (p.1, p.2.map (fun e =>
     (e.1, if b = 0 then 0 else
-      match legacyValueAt (s.logs (.storage p.1 e.1)) (b - 1) with
+      match legacyValueAt (lget s.logs (.storage p.1 e.1)) (b - 1) with
       | some v => v
       | none => s.storageHead p.1 e.1))))
 
 def LState.purge (s : LState) (a : Addr) : LState :=
-  { s with deployHeight := upd s.deployHeight a none, nonce := upd s.nonce a none,
-           classHash := upd s.classHash a none }
+  { s with deployHeight := bset s.deployHeight a none, nonce := bset s.nonce a none,
+           classHash := bset s.classHash a none }
 
-def logsDelAll (h : HKey → Hist) (b : Nat) (d : Diff) : HKey → Hist :=
-  let h := d.storage.foldl (fun h p =>
-    p.2.foldl (fun h e => upd h (.storage p.1 e.1) (hdel (h (.storage p.1 e.1)) b)) h) h
-  let h := d.nonces.foldl (fun h p => upd h (.nonce p.1) (hdel (h (.nonce p.1)) b)) h
-  d.replaced.foldl (fun h p => upd h (.classHash p.1) (hdel (h (.classHash p.1)) b)) h
+def logsDelAll (h : Bucket HKey Hist) (b : Nat) (d : Diff) : Bucket HKey Hist :=
+  let h := d.storage.foldl (fun h p => p.2.foldl (fun h e => histDel h (.storage p.1 e.1) b) h) h
+  let h := d.nonces.foldl (fun h p => histDel h (.nonce p.1) b) h
+  d.replaced.foldl (fun h p => histDel h (.classHash p.1) b) h
+
+/-- `purgesystemContracts` -/
+def LState.purgeSystem (s : LState) : LState :=
+  [1, 2].foldl (fun s a => if (bget s.classHash a).isSome && (lget s.trie a).isEmpty then s.purge a else s) s
 
 /-- `State.Revert` of block `b` whose diff was `d` -/
 def LState.revert (s : LState) (b : Nat) (d : Diff) : Except Err LState :=
-  if d.classHashes.any (fun c => (s.classes c).isNone) then .error .classMissing else
+  if d.classHashes.any (fun c => (bget s.classes c).isNone) then .error .classMissing else
   let s1 := { s with classes := undeclareFold s.classes b d.classHashes }
   let rs := s1.reverseStorage b d
-  if b != 0 && d.nonces.any (fun p => (legacyValueAt (s1.logs (.nonce p.1)) (b - 1)).isNone) then .error .checkHeadState else
-  let rn := d.nonces.map (fun p => (p.1, if b = 0 then 0 else (legacyValueAt (s1.logs (.nonce p.1)) (b - 1)).getD 0))
-  if b != 0 && d.replaced.any (fun p => (legacyValueAt (s1.logs (.classHash p.1)) (b - 1)).isNone) then .error .checkHeadState else
-  let rr := d.replaced.map (fun p => (p.1, if b = 0 then 0 else (legacyValueAt (s1.logs (.classHash p.1)) (b - 1)).getD 0))
+  if b != 0 && d.nonces.any (fun p => (legacyValueAt (lget s1.logs (.nonce p.1)) (b - 1)).isNone) then .error .checkHeadState else
+  let rn := d.nonces.map (fun p => (p.1, if b = 0 then 0 else (legacyValueAt (lget s1.logs (.nonce p.1)) (b - 1)).getD 0))
+  if b != 0 && d.replaced.any (fun p => (legacyValueAt (lget s1.logs (.classHash p.1)) (b - 1)).isNone) then .error .checkHeadState else
+  let rr := d.replaced.map (fun p => (p.1, if b = 0 then 0 else (legacyValueAt (lget s1.logs (.classHash p.1)) (b - 1)).getD 0))
   let s2 := { s1 with logs := logsDelAll s1.logs b d }
   match s2.updateContracts false b rr rn rs with
   | .error e => .error e
   | .ok s3 =>
-    if d.deployed.any (fun p => (s3.classHash p.1).isNone) then .error .notDeployed else
+    if d.deployed.any (fun p => (bget s3.classHash p.1).isNone) then .error .notDeployed else
     let s4 := d.deployed.foldl (fun s p => s.purge p.1) s3
-    -- purgesystemContracts
-    .ok ([1, 2].foldl (fun s a => if (s.classHash a).isSome && (s.trie a).isEmpty then s.purge a else s) s4)
+    .ok s4.purgeSystem
 
 def LState.headRead (s : LState) : Query → Res
-  | .classHash a => match s.classHash a with | some c => .ok c | none => .notfound
-  | .nonce a => match s.nonce a with | some v => .ok v | none => .notfound
+  | .classHash a => match bget s.classHash a with | some c => .ok c | none => .notfound
+  | .nonce a => match bget s.nonce a with | some v => .ok v | none => .notfound
   | .storage a k => .ok (s.storageHead a k)
-  | .cls c => match s.classes c with | some n => .ok n | none => .notfound
+  | .cls c => match bget s.classes c with | some n => .ok n | none => .notfound
 
 /-- `ContractDeployedAt` -/
 def LState.deployedAt (s : LState) (a : Addr) (n : Nat) : Bool :=
-  match s.deployHeight a with
+  match bget s.deployHeight a with
   | some h => decide (h ≤ n)
   | none => false
 
@@ -543,25 +591,25 @@ def LState.deployedAt (s : LState) (a : Addr) (n : Nat) : Bool :=
 def LState.histRead (s : LState) (n : Nat) : Query → Res
   | .classHash a =>
     if s.deployedAt a n then
-      match legacyValueAt (s.logs (.classHash a)) n with
+      match legacyValueAt (lget s.logs (.classHash a)) n with
       | some v => .ok v
       | none => s.headRead (.classHash a)
     else .notfound
   | .nonce a =>
     if s.deployedAt a n then
-      match legacyValueAt (s.logs (.nonce a)) n with
+      match legacyValueAt (lget s.logs (.nonce a)) n with
       | some v => .ok v
       | none => s.headRead (.nonce a)
     else .notfound
   | .storage a k =>
-    let v := match legacyValueAt (s.logs (.storage a k)) n with
+    let v := match legacyValueAt (lget s.logs (.storage a k)) n with
       | some v => v
       | none => s.storageHead a k
     -- "a non-zero value proves a write at or before n": skip the deployment probe
     if v != 0 then .ok v
     else if s.deployedAt a n then .ok v else .notfound
   | .cls c =>
-    match s.classes c with
+    match bget s.classes c with
     | some at_ => if n < at_ then .notfound else .ok at_
     | none => .notfound
 
@@ -575,32 +623,33 @@ structure CasmMeta where
   v1 : Option Val
   deriving DecidableEq, Repr
 
-abbrev MetaMap := CHash → Option CasmMeta
+abbrev MetaMap := Bucket CHash CasmMeta
 
 /-- `storeCasmHashMetadata` -/
 def metaStore (m : MetaMap) (b : Nat) (d : Diff) : Except Err MetaMap :=
   if d.v2 then
-    let m1 := d.declared1.foldl (fun m x => upd m x.hash (some ⟨b, x.casm, 0, none⟩)) m
+    let m1 := d.declared1.foldl (fun m x => bset m x.hash (some ⟨b, x.casm, 0, none⟩)) m
     d.migrated.foldlM (fun m p =>
-      match m p.1 with
+      match bget m p.1 with
       | none => .error .metaMissing
       | some mt =>
         if mt.v1.isNone || b ≤ mt.declaredAt || mt.migratedAt > 0 then .error .cannotMigrate
-        else .ok (upd m p.1 (some { mt with migratedAt := b }))) m1
+        else .ok (bset m p.1 (some { mt with migratedAt := b }))) m1
   else
-    .ok (d.declared1.foldl (fun m x => upd m x.hash (some ⟨b, x.casmV2, 0, some x.casm⟩)) m)
+    .ok (d.declared1.foldl (fun m x => bset m x.hash (some ⟨b, x.casmV2, 0, some x.casm⟩)) m)
 
 /-- the metadata reads made inside `State.Revert` (both backends) before anything is written -/
 def metaRevertCheck (m : MetaMap) (d : Diff) : Bool :=
-  d.migrated.all (fun p => match m p.1 with | some mt => mt.migratedAt > 0 | none => false)
+  d.migrated.all (fun p => match bget m p.1 with | some mt => mt.migratedAt > 0 | none => false)
 
 /-- `revertCasmHashMetadata` -/
 def metaRevert (m : MetaMap) (d : Diff) : Except Err MetaMap :=
-  let m1 := d.declared1.foldl (fun m x => upd m x.hash none) m
+  let m1 := d.declared1.foldl (fun m x => bset m x.hash none) m
   d.migrated.foldlM (fun m p =>
-    match m p.1 with
+    match bget m p.1 with
     | none => .error .metaMissing
-    | some mt => if mt.migratedAt > 0 then .ok (upd m p.1 (some { mt with migratedAt := 0 })) else .error .cannotUnmigrate) m1
+    | some mt =>
+      if mt.migratedAt > 0 then .ok (bset m p.1 (some { mt with migratedAt := 0 })) else .error .cannotUnmigrate) m1
 
 /-- `CasmHash()` -/
 def CasmMeta.head (mt : CasmMeta) : Val :=
@@ -625,7 +674,7 @@ structure Backend (σ : Type) where
   histRead : σ → Nat → Query → Res
 
 def newBackend (cfg : Cfg) : Backend NState :=
-  ⟨NState.empty, NState.update cfg, NState.revert cfg, NState.headRead, NState.histRead⟩
+  ⟨NState.empty, NState.update cfg, NState.revert cfg, NState.headRead, NState.histRead cfg⟩
 
 def legacyBackend : Backend LState :=
   ⟨LState.empty, LState.update, LState.revert, LState.headRead, LState.histRead⟩
@@ -636,7 +685,7 @@ structure Node (σ : Type) where
   blocks : List (BlockId × Diff)
   casmMeta : MetaMap
 
-def Node.init {σ : Type} (be : Backend σ) : Node σ := ⟨be.init, [], fun _ => none⟩
+def Node.init {σ : Type} (be : Backend σ) : Node σ := ⟨be.init, [], []⟩
 
 def Node.chain {σ : Type} (n : Node σ) : List Diff := n.blocks.map (·.2)
 
@@ -690,8 +739,8 @@ def Node.read {σ : Type} (be : Backend σ) (n : Node σ) (v : View) (q : Query)
 def Node.readCasm {σ : Type} (n : Node σ) (v : View) (c : CHash) : Option Res :=
   match n.resolve v with
   | none => none
-  | some none => some (match n.casmMeta c with | some mt => .ok mt.head | none => .notfound)
-  | some (some k) => some (match n.casmMeta c with | some mt => mt.at k | none => .notfound)
+  | some none => some (match bget n.casmMeta c with | some mt => .ok mt.head | none => .notfound)
+  | some (some k) => some (match bget n.casmMeta c with | some mt => mt.at k | none => .notfound)
 
 /-! ## Histories -/
 
